@@ -198,7 +198,7 @@ def execute_epi(scenario):
 def generate(rng, i):
     if i % 6 == 5:
         return generate_epi(rng, i)
-    rate = rng.choice([0.0, 0.01, 0.05, 0.2, -0.02, 0.2499, round(rng.uniform(-0.05, 0.249), 5)])
+    rate = rng.choice([0.0, 0.01, 0.05, 0.2, -0.02, 0.2499, round(rng.uniform(-0.05, 0.249), 5), -0.3, -0.6, -0.25])
     markup = rng.choice([0.0, 0.0, 0.005, 0.03, round(rng.uniform(0, 0.06), 4)])
     if 1 + rate - markup <= 0.01:
         markup = 0.0
@@ -225,7 +225,7 @@ def generate(rng, i):
         elif r < 0.95:
             script.append({"op": "rebal_empty", "dt": dt})
         elif ratepath:
-            script.append({"op": "rate", "r": rng.choice([0.0, 0.02, 0.1, -0.01])})
+            script.append({"op": "rate", "r": rng.choice([0.0, 0.02, 0.1, -0.01, -0.3])})
         else:
             script.append({"op": "accrue", "dt": dt})
     script.append({"op": "accrue", "dt": rng.choice(dts)})
@@ -524,12 +524,15 @@ def _execute(sc):
                     probe("accrual_clock_started_by_rebalance")
                 else:
                     S.b.accrued_interest(S.t, True)
+                if last_accrual_t != P.t_utc:
+                    P.b.accrued_interest(P.t, True)      # the primary account accrues up to the same instant (queries moved its clock)
                 a, b = P.cash(), S.cash()
                 if cuts >= 2:
                     probe("split_compared")
                 if cuts >= 5:
                     probe("five_or_more_cuts")
-                if abs(a - b) > 1e-10 * max(1.0, abs(a)):
+                # (a balance that decays from 5e4 to 0.3 at -60% a year is known to 1e-16 of the 5e4 it came from)
+                if abs(a - b) > 1e-10 * max(1.0, abs(a)) + 1e-12 * abs(cash0):
                     violate(len(sc["script"]), "split_invariance", "{} accruals gave {} but a single accrual over the same span gave {}".format(cuts, a, b),
                             regime="pos" if cash0 > 0 else "neg")
             log.append(["end", canon(P.cash()), canon(S.cash())])
